@@ -358,12 +358,12 @@ theorem ptok_decode_eq (a : AEAD) (hl : a.Laws) (buffer : Bytes) (hlen : buffer.
 def EncOut (cap : Nat) (m : NRes Bytes) (g : Res (SNErr × List Nat) (List Nat × Nat)) : Prop :=
   match m with
   | .ok bytes => ∃ buf', g = .ok (buf', bytes.length) ∧ buf'.take bytes.length = toNats bytes ∧ buf'.length = cap
-  | .err e => ∃ st, g = .err (reprNErr e, st)
+  | .err e => ∃ st, g = .err (reprNErr e, st) ∧ st.length = cap
   | .panic _ => ∃ msg, g = .panic msg
 
-theorem wcur_of_buffer (b : Bytes) : RustSem.WriteCursor.new (toNats b) = wcur (Wr.new b.length) (toNats b) := by
+theorem wcur_of_buffer (b : List Nat) : RustSem.WriteCursor.new b = wcur (Wr.new b.length) b := by
   simp [RustSem.WriteCursor.new, wcur, Wr.new, toNats]
-theorem wrok_of_buffer (b : Bytes) : WrOk (Wr.new b.length) (toNats b) := by simp [WrOk, Wr.new, toNats_length]
+theorem wrok_of_buffer (b : List Nat) : WrOk (Wr.new b.length) b := by simp [WrOk, Wr.new]
 
 theorem to_le_bytes8 (x : UInt8) : RustSem.to_le_bytes 8 x.toNat = toNats [x] := by
   have h : x.toNat < 256 := x.toNat_lt
@@ -421,17 +421,13 @@ theorem ext_packet_write {p : Netcode.Packet} {w w' : Wr} (h : p.write w = some 
   | connectionDenied => simp only [Netcode.Packet.write] at h; cases h; exact ⟨rfl, ⟨[], by simp⟩, fun h => h⟩
   | disconnect => simp only [Netcode.Packet.write] at h; cases h; exact ⟨rfl, ⟨[], by simp⟩, fun h => h⟩
 
-
 theorem ext_write (w : Wr) (b : Bytes) : Ext w (w.write b).1 := by
   refine ⟨rfl, ⟨b.take (min b.length (w.cap - w.out.length)), rfl⟩, fun h => ?_⟩
   simp only [Wr.write, List.length_append, List.length_take]
   omega
 
-theorem wcur_bufB (w : Wr) (tB : Bytes) : (wcur w (toNats tB)).buf = toNats (w.out ++ tB) := by
-  simp [wcur, toNats_append]
-
 /-- list bookkeeping of the in-place seal: `B` is the buffer, `[s, e)` the plaintext, `sealed` what `seal` returned -/
-theorem seal_splice (B sealed : Bytes) (s e : Nat) (hse : s ≤ e) (he : e + 16 ≤ B.length)
+theorem seal_splice {α : Type} (B sealed : List α) (s e : Nat) (hse : s ≤ e) (he : e + 16 ≤ B.length)
     (hs : sealed.length = (e - s) + 16) :
     (B.take s ++ sealed ++ B.drop (e + 16)).take ((B.take e).take s ++ sealed).length = (B.take e).take s ++ sealed ∧
     (B.take s ++ sealed ++ B.drop (e + 16)).length = B.length ∧
@@ -450,15 +446,95 @@ theorem seal_splice (B sealed : Bytes) (s e : Nat) (hse : s ≤ e) (he : e + 16 
     congr 1
     omega
 
+/-- `encrypt_in_place` on `plain ‖ 16 arbitrary numbers` (the tag area is overwritten, its old content is not read) -/
+theorem encrypt_in_place_junk (a : AEAD) (plain : Bytes) (junk : List Nat) (hj : junk.length = 16) (sequence : Nat)
+    (key aad : Bytes) :
+    @RustSem.encrypt_in_place (aeadOf a) (toNats plain ++ junk) sequence (toNats key) (toNats aad)
+      = .ok (toNats (Packet.sealBody a key sequence aad plain), ()) := by
+  have hn : ¬ (toNats plain ++ junk).length < 16 := by rw [List.length_append, hj]; omega
+  have ht : (toNats plain ++ junk).take ((toNats plain ++ junk).length - 16) = toNats plain := by
+    rw [List.length_append, hj, Nat.add_sub_cancel]; exact List.take_left' rfl
+  simp only [RustSem.encrypt_in_place, hn, if_false, aead_seal_eq, crypto_nonce_eq, ofNats_toNats, Packet.sealBody, ht]
+
 theorem wout_ok {w0 : Wr} {tail0 : List Nat} {w' : Wr} {r : Res (IoError × WriteCursor) (WriteCursor × Unit)}
     (h : WOut w0 tail0 (some w') r) : r = .ok (wcur w' (tail0.drop (w'.out.length - w0.out.length)), ()) := h
 theorem wout_err {w0 : Wr} {tail0 : List Nat} {r : Res (IoError × WriteCursor) (WriteCursor × Unit)}
     (h : WOut w0 tail0 none r) : ∃ c, r = .err (.opaque, c) := h
 
-theorem wcur_buf_take (w : Wr) (tail : List Nat) : (wcur w tail).buf.take w.out.length = toNats w.out := by
-  simp [wcur, List.take_append_of_le_length, toNats_length]
-theorem wcur_buf_length (w : Wr) (tail : List Nat) : (wcur w tail).buf.length = w.out.length + tail.length := by
-  simp [wcur, toNats_length]
+/-! length preservation of the generated writers (needed for the buffer carried by an `Err`) -/
+
+def LenOut (n : Nat) (r : Res (IoError × WriteCursor) (WriteCursor × Unit)) : Prop :=
+  match r with
+  | .ok (c', _) => c'.buf.length = n
+  | .err (_, c') => c'.buf.length = n
+  | .panic _ => True
+
+theorem write_all_len (c : WriteCursor) (b : List Nat) (hc : CInv c) :
+    match WriteCursor.write_all c b with
+    | .ok (c', _) => c'.buf.length = c.buf.length ∧ CInv c'
+    | .err (_, c') => c'.buf.length = c.buf.length
+    | .panic _ => True := by
+  unfold CInv at hc
+  unfold WriteCursor.write_all
+  by_cases h : b.length ≤ c.buf.length - c.pos
+  · simp only [h, if_true, CInv, List.length_append, List.length_take, List.length_drop]
+    omega
+  · simp only [h, if_false, List.length_append, List.length_take]
+    omega
+
+theorem len_chain (n : Nat) (c : WriteCursor) (hc : CInv c) (hl : c.buf.length = n) (b : List Nat)
+    (k : WriteCursor × Unit → Exec (IoError × WriteCursor) (WriteCursor × Unit) WriteCursor)
+    (hk : ∀ c1, CInv c1 → c1.buf.length = n → LenOut n ((k (c1, ())).bind fun wr => Exec.val (wr, ())).run) :
+    LenOut n (((Exec.callFrom (fun err => Res.ok (err.1, err.2)) (WriteCursor.write_all c b)).bind k).bind
+      fun wr => Exec.val (wr, ())).run := by
+  have h := write_all_len c b hc
+  cases hw : WriteCursor.write_all c b with
+  | ok x =>
+    obtain ⟨c1, u⟩ := x
+    rw [hw] at h
+    simp only [Exec.callFrom_ok, Exec.bind_val']
+    exact hk c1 h.2 (by rw [h.1, hl])
+  | err x =>
+    obtain ⟨e, c1⟩ := x
+    rw [hw] at h
+    simp only [Exec.callFrom, Exec.bind, Exec.run, LenOut]
+    rw [h, hl]
+  | panic m => simp [Exec.callFrom, Exec.bind, Exec.run, LenOut]
+
+theorem len_last (n : Nat) (c : WriteCursor) (hc : CInv c) (hl : c.buf.length = n) (b : List Nat) :
+    LenOut n (((Exec.callFrom (fun err => Res.ok (err.1, err.2)) (WriteCursor.write_all c b)).bind
+        fun t => (Exec.val t.1 : Exec (IoError × WriteCursor) (WriteCursor × Unit) WriteCursor)).bind
+          fun wr => Exec.val (wr, ())).run :=
+  len_chain n c hc hl b _ (fun c1 _ h1 => by simp only [Exec.bind_val', Exec.run_val, LenOut]; exact h1)
+
+theorem np_write_len (p : SNcPacket) (c : WriteCursor) (hc : CInv c) :
+    LenOut c.buf.length (Src.renetcode.packet.Packet.write p c) := by
+  unfold Src.renetcode.packet.Packet.write
+  cases p with
+  | ConnectionRequest v pid e x d =>
+    simp only [Exec.bind_eq, Exec.pure_eq]
+    refine len_chain _ c hc rfl _ _ (fun c1 hc1 h1 => ?_)
+    refine len_chain _ c1 hc1 h1 _ _ (fun c2 hc2 h2 => ?_)
+    refine len_chain _ c2 hc2 h2 _ _ (fun c3 hc3 h3 => ?_)
+    refine len_chain _ c3 hc3 h3 _ _ (fun c4 hc4 h4 => ?_)
+    exact len_last _ c4 hc4 h4 _
+  | ConnectionDenied => simp [LenOut, Exec.bind_eq, Exec.pure_eq, Exec.bind_val', Exec.run_val]
+  | Challenge sq d =>
+    simp only [Exec.bind_eq, Exec.pure_eq]
+    refine len_chain _ c hc rfl _ _ (fun c1 hc1 h1 => ?_)
+    exact len_last _ c1 hc1 h1 _
+  | Response sq d =>
+    simp only [Exec.bind_eq, Exec.pure_eq]
+    refine len_chain _ c hc rfl _ _ (fun c1 hc1 h1 => ?_)
+    exact len_last _ c1 hc1 h1 _
+  | KeepAlive i m =>
+    simp only [Exec.bind_eq, Exec.pure_eq]
+    refine len_chain _ c hc rfl _ _ (fun c1 hc1 h1 => ?_)
+    exact len_last _ c1 hc1 h1 _
+  | Payload b =>
+    simp only [Exec.bind_eq, Exec.pure_eq]
+    exact len_last _ c hc rfl _
+  | Disconnect => simp [LenOut, Exec.bind_eq, Exec.pure_eq, Exec.bind_val', Exec.run_val]
 
 /-- the branch of `Packet.encode` for every packet but a connection request -/
 def encodeSealed (a : AEAD) (p : Netcode.Packet) (cap : Nat) (protocolId : Nat) (crypto : Option (Nat × Bytes)) : NRes Bytes :=
@@ -478,50 +554,64 @@ def encodeSealed (a : AEAD) (p : Netcode.Packet) (cap : Nat) (protocolId : Nat) 
 
 theorem encode_not_cr (a : AEAD) (p : Netcode.Packet) (hnc : p.packetType ≠ .connectionRequest) (cap pid : Nat)
     (crypto : Option (Nat × Bytes)) :
-    Netcode.Packet.encode a p cap pid crypto = encodeSealed a p cap pid crypto ∧
-    (match reprNP p with | Src.renetcode.packet.Packet.ConnectionRequest _ _ _ _ _ => true | _ => false) = false := by
+    Netcode.Packet.encode a p cap pid crypto = encodeSealed a p cap pid crypto := by
   cases p with
   | connectionRequest v pd e x d => exact absurd rfl hnc
-  | _ => exact ⟨rfl, rfl⟩
+  | _ => rfl
 
 theorem packet_id_lt (p : Netcode.Packet) : p.id < 16 := by
   cases p <;> simp [Netcode.Packet.id, Netcode.Packet.packetType, Netcode.PacketType.toNat]
 
+theorem wfull_len {w : Wr} {tail : List Nat} (h : WrOk w tail) {b : Bytes} (hf : w.writeAll b = none) :
+    (wfull w tail b).buf.length = w.cap := by
+  unfold Wr.writeAll at hf
+  unfold WrOk at h
+  split at hf
+  · cases hf
+  · simp only [wfull, List.length_append, toNats_length, List.length_take]; omega
+
+theorem wcur_len {w : Wr} {tail : List Nat} (h : WrOk w tail) : (wcur w tail).buf.length = w.cap := by
+  unfold WrOk at h
+  simp only [wcur, List.length_append, toNats_length]; omega
+
+theorem write_err_len {w : Wr} {tail : List Nat} (h : WrOk w tail) (p : SNcPacket) {c : WriteCursor} {e : IoError}
+    (hc : Src.renetcode.packet.Packet.write p (wcur w tail) = .err (e, c)) : c.buf.length = w.cap := by
+  have := np_write_len p (wcur w tail) (cinv_wcur h)
+  rw [hc] at this
+  simp only [LenOut] at this
+  rw [this, wcur_len h]
+
 set_option maxRecDepth 10000 in
-theorem packet_encode_eq (a : AEAD) (hl : a.Laws) (p : Netcode.Packet) (bufB : Bytes) (hcap : bufB.length + 16 < 2 ^ 64)
+/-- `Packet::encode` into an ARBITRARY buffer of numbers (stale contents, not even bytes, allowed) -/
+theorem packet_encode_eq (a : AEAD) (hl : a.Laws) (p : Netcode.Packet) (buffer : List Nat) (hcap : buffer.length + 16 < 2 ^ 64)
     (pid : Nat) (crypto : Option (Nat × Bytes)) :
-    EncOut bufB.length (Netcode.Packet.encode a p bufB.length pid crypto)
-      (@Src.renetcode.packet.Packet.encode (aeadOf a) (reprNP p) (toNats bufB) pid (crypto.map fun x => (x.1, toNats x.2))) := by
-  have hcr : ∀ (p : Netcode.Packet), (∀ v pd e x d, p ≠ .connectionRequest v pd e x d) →
-      (match reprNP p with | Src.renetcode.packet.Packet.ConnectionRequest _ _ _ _ _ => true | _ => false) = false := by
-    intro p hp
-    cases p <;> first | rfl | exact absurd rfl (hp _ _ _ _ _)
+    EncOut buffer.length (Netcode.Packet.encode a p buffer.length pid crypto)
+      (@Src.renetcode.packet.Packet.encode (aeadOf a) (reprNP p) buffer pid (crypto.map fun x => (x.1, toNats x.2))) := by
   unfold Src.renetcode.packet.Packet.encode
   simp only [Exec.bind_eq, Exec.pure_eq]
   by_cases hnc : p.packetType = .connectionRequest
   case neg =>
-    obtain ⟨hm, _⟩ := encode_not_cr a p hnc bufB.length pid crypto
-    rw [hm]
+    rw [encode_not_cr a p hnc buffer.length pid crypto]
     split
     · rename_i heq
       cases p <;> first | exact absurd rfl hnc | (simp [reprNP] at heq)
     simp only [Bool.false_eq_true, if_false]
     cases crypto with
-    | none => simp only [Option.map_none, encodeSealed, EncOut, Exec.run, reprNErr]; exact ⟨_, rfl⟩
+    | none => simp only [Option.map_none, encodeSealed, EncOut, Exec.run, reprNErr]; exact ⟨_, rfl, rfl⟩
     | some ck =>
       obtain ⟨sequence, key⟩ := ck
       simp only [Option.map_some, encodeSealed, wcur_of_buffer, np_id_eq, Exec.call_ok, Exec.bind_val',
-        encode_prefix_eq _ _ (packet_id_lt p), to_le_bytes8, (wcur_write_all (wrok_of_buffer bufB) _).1]
-      cases h1 : (Wr.new bufB.length).writeAll [Packet.encodePrefix p.id sequence] with
+        encode_prefix_eq _ _ (packet_id_lt p), to_le_bytes8, (wcur_write_all (wrok_of_buffer buffer) _).1]
+      cases h1 : (Wr.new buffer.length).writeAll [Packet.encodePrefix p.id sequence] with
       | none =>
         simp only [io?, Res.bind_err, EncOut, Exec.callFrom, ne_from_io, Res.bind, Exec.bind, Exec.run, reprNErr]
-        exact ⟨_, rfl⟩
+        exact ⟨_, rfl, wfull_len (wrok_of_buffer buffer) h1⟩
       | some w1 =>
-        have hok1 := (wcur_write_all (wrok_of_buffer bufB) [Packet.encodePrefix p.id sequence]).2 w1 h1
+        have hok1 := (wcur_write_all (wrok_of_buffer buffer) [Packet.encodePrefix p.id sequence]).2 w1 h1
         have hext1 := ext_writeAll h1
         simp only [io?, Res.bind_ok, Exec.callFrom_ok, Exec.bind_val', write_sequence_eq hok1]
         have hoks : WrOk (Packet.writeSequence w1 sequence).1
-            ((List.drop [Packet.encodePrefix p.id sequence].length (toNats bufB)).drop (Packet.writeSequence w1 sequence).2) :=
+            ((List.drop [Packet.encodePrefix p.id sequence].length buffer).drop (Packet.writeSequence w1 sequence).2) :=
           (wcur_write hok1 ((Netcode.leBytes sequence 8).take (Packet.sequenceBytesRequired sequence))).2
         have hexts : Ext w1 (Packet.writeSequence w1 sequence).1 :=
           ext_write w1 ((Netcode.leBytes sequence 8).take (Packet.sequenceBytesRequired sequence))
@@ -532,38 +622,34 @@ theorem packet_encode_eq (a : AEAD) (hl : a.Laws) (p : Netcode.Packet) (bufB : B
         | none =>
           rw [h2] at hw
           obtain ⟨c, hc⟩ := wout_err hw
+          have hclen := write_err_len hoks (reprNP p) hc
           simp only [hc, EncOut, Res.bind_err, Exec.callFrom, ne_from_io, Res.bind, Exec.bind, Exec.run, reprNErr]
-          exact ⟨_, rfl⟩
+          refine ⟨_, rfl, ?_⟩
+          rw [hclen, hexts.1, hext1.1]; rfl
         | some w2 =>
           rw [h2] at hw
           rw [wout_ok hw]
           have hext2 := ext_packet_write h2
-          -- the buffer behind the cursor, as bytes
-          have hl1 : w1.out.length ≤ bufB.length := hext1.2.2 (by simp [Wr.new])
-          have hls : ws.out.length ≤ bufB.length := by
+          have hl1 : w1.out.length ≤ buffer.length := hext1.2.2 (by simp [Wr.new])
+          have hls : ws.out.length ≤ buffer.length := by
             have := hexts.2.2 (by rw [hext1.1]; exact hl1)
             rw [hext1.1] at this; exact this
-          have hl2 : w2.out.length ≤ bufB.length := by
+          have hl2 : w2.out.length ≤ buffer.length := by
             have := hext2.2.2 (by rw [hexts.1, hext1.1]; exact hls)
             rw [hexts.1, hext1.1] at this; exact this
           have hse : ws.out.length ≤ w2.out.length := by
             obtain ⟨b, hb⟩ := hext2.2.1
             rw [hb, List.length_append]; omega
-          have hcapS : ws.cap = bufB.length := by rw [hexts.1, hext1.1]; rfl
-          have htl : List.drop (w2.out.length - ws.out.length)
-              (List.drop n (List.drop [Packet.encodePrefix p.id sequence].length (toNats bufB)))
-              = toNats (bufB.drop ([Packet.encodePrefix p.id sequence].length + n + (w2.out.length - ws.out.length))) := by
-            simp only [List.drop_drop, ← toNats_drop]
-          have htlen : (bufB.drop ([Packet.encodePrefix p.id sequence].length + n + (w2.out.length - ws.out.length))).length
-              = bufB.length - w2.out.length := by
+          have hcapS : ws.cap = buffer.length := by rw [hexts.1, hext1.1]; rfl
+          generalize htl : List.drop (w2.out.length - ws.out.length)
+              (List.drop n (List.drop [Packet.encodePrefix p.id sequence].length buffer)) = tl2
+          have htlen : tl2.length = buffer.length - w2.out.length := by
             have h0 := hoks
             unfold WrOk at h0
             rw [hcapS] at h0
-            simp only [List.length_drop, toNats_length] at h0 ⊢
+            rw [← htl]
+            simp only [List.length_drop] at h0 ⊢
             omega
-          generalize hB2 : bufB.drop ([Packet.encodePrefix p.id sequence].length + n + (w2.out.length - ws.out.length)) = tB2
-            at htl htlen
-          rw [htl]
           have hpos_s : ∀ tl, (wcur ws tl).position = ws.out.length := fun _ => rfl
           have hpos_e : ∀ tl, (wcur w2 tl).position = w2.out.length := fun _ => rfl
           have hlts : ws.out.length < 2 ^ 64 := by omega
@@ -571,50 +657,55 @@ theorem packet_encode_eq (a : AEAD) (hl : a.Laws) (p : Netcode.Packet) (bufB : B
           have hadd : w2.out.length + Src.renetcode.NETCODE_MAC_BYTES < 2 ^ 64 := by
             show w2.out.length + 16 < 2 ^ 64
             omega
-          have hBlen : (w2.out ++ tB2).length = bufB.length := by rw [List.length_append, htlen]; omega
+          have hbuf : (wcur w2 tl2).buf = toNats w2.out ++ tl2 := rfl
+          have hBlen : (toNats w2.out ++ tl2).length = buffer.length := by
+            rw [List.length_append, toNats_length, htlen]; omega
           simp only [Exec.callFrom_ok, Exec.bind_val', get_additional_data_eq, Exec.call_ok, hpos_s, hpos_e,
-            cast_of_lt hlts, cast_of_lt hlte, wcur_bufB, add_val hadd, RustSem.len, toNats_length, hBlen, Res.bind_ok,
-            Wr.pos]
+            cast_of_lt hlts, cast_of_lt hlte, hbuf, add_val hadd, RustSem.len, hBlen, Res.bind_ok, Wr.pos]
           have h16 : Src.renetcode.NETCODE_MAC_BYTES = 16 := rfl
           have h16' : C.NETCODE_MAC_BYTES = 16 := rfl
           rw [h16, h16']
-          by_cases hsmall : bufB.length < w2.out.length + 16
+          by_cases hsmall : buffer.length < w2.out.length + 16
           · simp only [hsmall, decide_true, if_true, Exec.bind, Exec.run, EncOut, reprNErr]
-            exact ⟨_, rfl⟩
+            exact ⟨_, rfl, hBlen⟩
           · simp only [hsmall, decide_false, Bool.false_eq_true, if_false, Exec.bind_val']
-            have hfit : w2.out.length + 16 ≤ (w2.out ++ tB2).length := by rw [hBlen]; omega
-            have hsl : ∀ site, (RustSem.slice (toNats (w2.out ++ tB2)) ws.out.length (w2.out.length + 16) site
-                : Exec (SNErr × List Nat) (List Nat × Nat) _)
-                = .val (toNats (((w2.out ++ tB2).take (w2.out.length + 16)).drop ws.out.length)) := by
-              intro site
-              have hc : ws.out.length ≤ w2.out.length + 16 ∧ w2.out.length + 16 ≤ (toNats (w2.out ++ tB2)).length := by
-                rw [toNats_length]; exact ⟨by omega, hfit⟩
-              simp only [RustSem.slice, hc, and_self, if_true, ← toNats_take, ← toNats_drop]
-            have htake : (w2.out ++ tB2).take w2.out.length = w2.out := List.take_left' rfl
-            have hslen : 16 ≤ (((w2.out ++ tB2).take (w2.out.length + 16)).drop ws.out.length).length := by
-              simp only [List.length_drop, List.length_take]; omega
+            have hfit : w2.out.length + 16 ≤ (toNats w2.out ++ tl2).length := by rw [hBlen]; omega
+            have hc : ws.out.length ≤ w2.out.length + 16 ∧ w2.out.length + 16 ≤ (toNats w2.out ++ tl2).length :=
+              ⟨by omega, hfit⟩
+            -- the slice handed to `encrypt_in_place`: plaintext, then 16 stale numbers
+            have hslice : ((toNats w2.out ++ tl2).take (w2.out.length + 16)).drop ws.out.length
+                = toNats (w2.out.drop ws.out.length) ++ tl2.take 16 := by
+              have e1 : (toNats w2.out ++ tl2).take (w2.out.length + 16) = toNats w2.out ++ tl2.take 16 := by
+                rw [List.take_append, toNats_length, List.take_of_length_le (by rw [toNats_length]; omega)]
+                congr 2; omega
+              rw [e1, List.drop_append_of_le_length (by rw [toNats_length]; exact hse), toNats_drop]
+            have hjunk : (tl2.take 16).length = 16 := by
+              rw [List.length_take, htlen]; omega
+            simp only [RustSem.slice, hc, and_self, if_true, hslice, Exec.bind_val',
+              encrypt_in_place_junk a _ _ hjunk sequence key _, Exec.callFrom_ok]
             generalize hsealed : Packet.sealBody a key sequence (Packet.additionalData (Packet.encodePrefix p.id sequence) pid)
               (List.drop ws.out.length w2.out) = sealed
-            have hsl_len : sealed.length = (w2.out.length - ws.out.length) + 16 := by
-              rw [← hsealed]
+            have hsl_len : (toNats sealed).length = (w2.out.length - ws.out.length) + 16 := by
+              rw [toNats_length, ← hsealed]
               simp only [Packet.sealBody, hl.seal_length, List.length_drop]
-            obtain ⟨q1, q2, q3, q4⟩ := seal_splice (w2.out ++ tB2) sealed ws.out.length w2.out.length hse hfit hsl_len
-            rw [htake] at q1 q3 q4
-            simp only [hsl, encrypt_in_place_eq a _ sequence key _ hslen, q4, hsealed, Exec.callFrom_ok, Exec.bind_val']
-            have hsp : ∀ site, (RustSem.splice (toNats (w2.out ++ tB2)) ws.out.length (w2.out.length + 16) (toNats sealed) site
-                : Exec (SNErr × List Nat) (List Nat × Nat) _)
-                = .val (toNats ((w2.out ++ tB2).take ws.out.length ++ sealed ++ (w2.out ++ tB2).drop (w2.out.length + 16))) := by
-              intro site
-              have hc : ws.out.length ≤ w2.out.length + 16 ∧ w2.out.length + 16 ≤ (toNats (w2.out ++ tB2)).length := by
-                rw [toNats_length]; exact ⟨by omega, hfit⟩
-              rw [RustSem.splice, if_pos hc]
-              simp only [toNats_append, toNats_take, toNats_drop]
-            simp only [hsp, Exec.bind_val', Exec.run_val, Res.pure_eq, EncOut]
-            refine ⟨toNats ((w2.out ++ tB2).take ws.out.length ++ sealed ++ (w2.out ++ tB2).drop (w2.out.length + 16)),
+            obtain ⟨q1, q2, q3, _⟩ := seal_splice (toNats w2.out ++ tl2) (toNats sealed) ws.out.length w2.out.length hse hfit hsl_len
+            have htake : (toNats w2.out ++ tl2).take w2.out.length = toNats w2.out :=
+              List.take_left' (toNats_length _)
+            rw [htake] at q1 q3
+            simp only [RustSem.splice, hc, and_self, if_true, Exec.bind_val', Exec.run_val, Res.pure_eq, EncOut]
+            have hlenb : (List.take ws.out.length w2.out ++ sealed).length = w2.out.length + 16 := by
+              have := q3
+              rw [← toNats_take, ← toNats_append, toNats_length] at this
+              exact this
+            refine ⟨(toNats w2.out ++ tl2).take ws.out.length ++ toNats sealed ++ (toNats w2.out ++ tl2).drop (w2.out.length + 16),
               ?_, ?_, ?_⟩
-            · rw [q3]
-            · rw [← toNats_take, q1]
-            · rw [toNats_length, q2, hBlen]
+            · rw [hlenb]
+            · rw [toNats_append, toNats_take]
+              have := q1
+              rw [q3] at this
+              rw [hlenb]
+              exact this
+            · rw [q2, hBlen]
   cases p with
   | connectionDenied => exact absurd hnc (by simp [Netcode.Packet.packetType])
   | challenge sq d => exact absurd hnc (by simp [Netcode.Packet.packetType])
@@ -630,13 +721,13 @@ theorem packet_encode_eq (a : AEAD) (hl : a.Laws) (p : Netcode.Packet) (bufB : B
     have hb0 : RustSem.to_le_bytes 8 0 = toNats [UInt8.ofNat (Netcode.Packet.connectionRequest v pd e x d).id] := by
       show _ = toNats [UInt8.ofNat 0]
       decide
-    simp only [hid, Exec.call_ok, Exec.bind_val', hb0, (wcur_write_all (wrok_of_buffer bufB) _).1]
-    cases h1 : (Wr.new bufB.length).writeAll [UInt8.ofNat (Netcode.Packet.connectionRequest v pd e x d).id] with
+    simp only [hid, Exec.call_ok, Exec.bind_val', hb0, (wcur_write_all (wrok_of_buffer buffer) _).1]
+    cases h1 : (Wr.new buffer.length).writeAll [UInt8.ofNat (Netcode.Packet.connectionRequest v pd e x d).id] with
     | none =>
       simp only [io?, Res.bind_err, EncOut, Exec.callFrom, ne_from_io, Res.bind, Exec.bind, Exec.run, reprNErr]
-      exact ⟨_, rfl⟩
+      exact ⟨_, rfl, wfull_len (wrok_of_buffer buffer) h1⟩
     | some w1 =>
-      have hok1 := (wcur_write_all (wrok_of_buffer bufB) [UInt8.ofNat (Netcode.Packet.connectionRequest v pd e x d).id]).2 w1 h1
+      have hok1 := (wcur_write_all (wrok_of_buffer buffer) [UInt8.ofNat (Netcode.Packet.connectionRequest v pd e x d).id]).2 w1 h1
       simp only [io?, Res.bind_ok, Exec.callFrom_ok, Exec.bind_val']
       have hw := np_write_eq hok1 (Netcode.Packet.connectionRequest v pd e x d)
       simp only [reprNP] at hw
@@ -644,13 +735,16 @@ theorem packet_encode_eq (a : AEAD) (hl : a.Laws) (p : Netcode.Packet) (bufB : B
       | none =>
         rw [h2] at hw
         obtain ⟨c, hc⟩ := wout_err hw
+        have hclen := write_err_len hok1
+          (Src.renetcode.packet.Packet.ConnectionRequest (toNats v) pd e (toNats x) (toNats d)) hc
         simp only [hc, EncOut, Res.bind_err, Exec.callFrom, ne_from_io, Res.bind, Exec.bind, Exec.run, reprNErr]
-        exact ⟨_, rfl⟩
+        refine ⟨_, rfl, ?_⟩
+        rw [hclen, (ext_writeAll h1).1]; rfl
       | some w2 =>
         rw [h2] at hw
         rw [wout_ok hw]
         have hext := ext_trans (ext_writeAll h1) (ext_packet_write h2)
-        have hle : w2.out.length ≤ bufB.length := hext.2.2 (by simp [Wr.new])
+        have hle : w2.out.length ≤ buffer.length := hext.2.2 (by simp [Wr.new])
         have hlt : w2.out.length < 2 ^ 64 := by omega
         simp only [Exec.callFrom_ok, Exec.bind_val', Exec.run_val, Res.bind_ok, Res.pure_eq, EncOut,
           RustSem.WriteCursor.position, wcur, cast_of_lt hlt]
@@ -662,7 +756,6 @@ theorem packet_encode_eq (a : AEAD) (hl : a.Laws) (p : Netcode.Packet) (bufB : B
             rw [hb, List.length_append]; omega
           simp only [List.length_append, toNats_length, List.length_drop, List.length_cons, List.length_nil]
           omega
-
 
 /-! ### `Packet::decode` -/
 
